@@ -16,6 +16,8 @@ package c06
 //	            (stage point, INIT / suffrage-confirm / ACCEPT) x every embedded voteproof (any
 //	            position, or none); plain 3-node suffrage, and a 4-node suffrage where the last node
 //	            is expelled (ballots and voteproofs carry the expel, as the protocol does)
+//	prefix.f1late  the same with the suffrage unknown when the ballot arrives: the position is moved by
+//	            Ballotbox.Count after the suffrage is learnt (quick: suffrage-confirm ballots only)
 //	prefix.f2   every start position x every record voted to a decision (all agree / draw at the
 //	            second vote / draw at the last vote) with every voteproof the protocol embeds
 //	prefix.rnd  seeded consensus-like flows (INIT -> suffrage confirm -> ACCEPT -> next height or
@@ -381,6 +383,37 @@ func familyOne(maxh, maxr int64, run func(vhist) error) error {
 	return nil
 }
 
+// familyOneLate: the ballot arrives while the suffrage is unknown (kept unvalidated, nothing counted);
+// the position is then moved by Ballotbox.Count once the suffrage is known. all = every kind of
+// ballot, otherwise the suffrage-confirm ones (the record filter that lets any voteproof through).
+func familyOneLate(maxh, maxr int64, all bool, run func(vhist) error) error {
+	starts := append([]Pos{zero}, vpositions(maxh, maxr)...)
+	evps := []Pos{zero}
+	for _, p := range vpositions(maxh, maxr) {
+		if constructible(p) {
+			evps = append(evps, p)
+		}
+	}
+	for _, st := range starts {
+		for _, k := range vkeys(maxh, maxr) {
+			if !all && k.K != "S" {
+				continue
+			}
+			for _, e := range evps {
+				if k.K == "A" && !e.isZero() && e.S != 1 {
+					continue
+				}
+				hist := vhist{NN: 3, T10: 670, Suf: false, Tag: "f1late"}
+				hist.Ops = append(startOps(st), vop{A: "Vote", B: vballot{N: "n1", K: k, F: "A", E: e}}, vop{A: "Learn"}, vop{A: "Count"})
+				if err := run(hist); err != nil {
+					return err
+				}
+			}
+		}
+	}
+	return nil
+}
+
 func familyTwo(maxh, maxr int64, run func(vhist) error) error {
 	starts := append([]Pos{zero}, vpositions(maxh, maxr)...)
 	type variant struct {
@@ -546,6 +579,11 @@ func votes(fl map[string]string) error {
 		return nil
 	}
 	if err := family("f1", func(run func(vhist) error) error { return familyOne(maxh, maxr, run) }); err != nil {
+		return err
+	}
+	if err := family("f1late", func(run func(vhist) error) error {
+		return familyOneLate(maxh, maxr, os.Getenv("VERIF_TIER") == "thorough", run)
+	}); err != nil {
 		return err
 	}
 	if err := family("f2", func(run func(vhist) error) error { return familyTwo(maxh, maxr, run) }); err != nil {
